@@ -88,7 +88,7 @@ func (encryptor *PostgreSQLTokenizeQuery) OnQuery(ctx context.Context, query pos
 			return query, false, err
 		}
 
-		paramRef := item.Expr.Rexpr.GetParamRef()
+		paramRef := postgresql.GetComparedParamRef(item.Expr.Rexpr)
 		if paramRef == nil {
 			continue
 		}
@@ -129,7 +129,7 @@ func (encryptor *PostgreSQLTokenizeQuery) OnBind(ctx context.Context, parseResul
 			continue
 		}
 
-		paramRef := item.Expr.Rexpr.GetParamRef()
+		paramRef := postgresql.GetComparedParamRef(item.Expr.Rexpr)
 		if paramRef == nil {
 			continue
 		}
